@@ -20,6 +20,7 @@ import (
 	"os"
 	"strings"
 
+	"github.com/drone/envsubst/v2"
 	"github.com/knadh/koanf/maps"
 	"github.com/santhosh-tekuri/jsonschema/v6"
 	"gopkg.in/yaml.v3"
@@ -41,9 +42,16 @@ func ValidateConfig(configPath string) error {
 		return errorchain.NewWithMessage(heimdall.ErrConfiguration, "empty config file")
 	}
 
+	// validate what the loader is going to read: references to environment variables are resolved first
+	content, err := envsubst.EvalEnv(stringx.ToString(contents))
+	if err != nil {
+		return errorchain.NewWithMessage(heimdall.ErrConfiguration,
+			"failed to parse config file").CausedBy(err)
+	}
+
 	var conf map[string]any
 
-	err = yaml.Unmarshal(contents, &conf)
+	err = yaml.Unmarshal(stringx.ToBytes(content), &conf)
 	if err != nil {
 		return errorchain.NewWithMessage(heimdall.ErrConfiguration,
 			"failed to parse config file").CausedBy(err)
